@@ -236,7 +236,11 @@ def aggregation_on_collision(chk):
                             if any(isinstance(x_, ast.Raise) for s_ in body for x_ in ast.walk(s_)):
                                 continue  # a registry with unique names (a collision is an error), not an aggregation
                             n += 1
-                            same = bool(body_aug) and bool(else_asg) and ast.unparse(body_aug[0]) == ast.unparse(else_asg[0].value)
+                            def _nocopy(n_):
+                                # x.copy() holds the same numbers as x (which of the two branches takes the defensive copy is immaterial)
+                                s_ = ast.unparse(n_)
+                                return s_[:-len(".copy()")] if s_.endswith(".copy()") else s_
+                            same = bool(body_aug) and bool(else_asg) and _nocopy(body_aug[0]) == _nocopy(else_asg[0].value)
                             chk.ob("C18.R2", same, f.module, f.qual, "aggregate-on-collision", "same-named securities are aggregated: add on a name collision, assign otherwise, the same series in both",
                                    where="%s:%d" % (f.module, sub.lineno), found=ast.unparse(sub)[:160], sample={"site": f.qual})
     chk.floor_count("C18.R2:aggregation loops", n, 2)
@@ -278,3 +282,4 @@ def run(chk):
     core_rules.transact_rules(chk, "C18")
     core_rules.security_setup_rules(chk, "C18")  # the bid/offer-paid history behind the reported execution prices  # custom-price trades need bid/offer tracking for the reported prices to be the execution prices
     tree_rules.full_name_members(chk, "C18")
+    core_rules.security_update(chk, "C18")  # the bid/offer-paid row behind the reported execution price is recorded whenever it is recomputed
